@@ -6,6 +6,9 @@
 2. spec -> code: the model's labelled transition system is exported from TLC and every transition
    is replayed (shortest path + the transition) on a real Response; the expected header text of
    each step travels with the trace and is compared by the judge (clause ModelPost).
+4. code -> spec from the repository's own tests: tests/test_wrappers.py, test_http.py, test_datastructures.py,
+   test_send_file.py, test_utils.py (thorough: the whole tests/ directory) run under harness/pytest_headerviews_plugin.py;
+   every Response object and every view object the tests construct is a session judged by the same trace spec.
 3. code -> spec: exhaustive short histories per view property over an argument universe, seeded
    random walks over all view kinds / scalar properties / direct edits, and scalar sweeps are
    executed on real Response objects and judged line by line by HeaderViewsTrace.tla (TLC).
@@ -269,6 +272,81 @@ def _model_step(act):
     return st
 
 
+# ---------------------------------------------------------------------- the repository's own tests
+THOROUGH_TEST_FILES = ("tests", "--ignore=tests/test_serving.py", "--ignore=tests/live_apps")
+QUICK_TEST_FILES = ("tests/test_wrappers.py", "tests/test_http.py", "tests/test_datastructures.py", "tests/test_send_file.py",
+                    "tests/test_utils.py")
+
+
+def record_repo_tests(ctx: Ctx, files):
+    """run the repository's tests under the recording plugin (test process only; /repo untouched)"""
+    import json
+    import os
+    import subprocess
+    import sys
+
+    from .. import tlc
+    from ..core import REPO, VERIF
+
+    out = os.path.join(ctx.tmp, f"repo-headerview-sessions-{abs(hash(tuple(files))) % 10**8}.json")
+    env = dict(os.environ, VERIF_TRACE_OUT=out, PYTHONPATH=VERIF + os.pathsep + os.path.join(REPO, "src"),
+               PYTHONDONTWRITEBYTECODE="1")
+    p = subprocess.run([sys.executable, "-m", "pytest", "-q", "-p", "no:cacheprovider", "-p", "harness.pytest_headerviews_plugin",
+                        "--no-header", "-n", "0", *files], cwd=REPO, env=env, capture_output=True, text=True, timeout=1800)
+    tail = (p.stdout + p.stderr)[-1500:]
+    if not os.path.exists(out):
+        raise tlc.MachineryError("recording the repository's tests produced no trace file:\n" + tail)
+    return p, tail, json.load(open(out))
+
+
+def repo_test_traces(ctx: Ctx, files=QUICK_TEST_FILES, min_steps=150, recorded=None):
+    """code -> spec from the repository's own tests: every Response / view object the tests touch is a session
+    (harness/pytest_headerviews_plugin.py); all sessions are judged line by line by HeaderViewsTrace."""
+    from .. import tlc
+
+    p, tail, data = recorded or record_repo_tests(ctx, files)
+    sessions = data["sessions"]
+    lines, steps = [], 0
+    for t, s in enumerate(sessions):
+        for ln in s["lines"]:
+            ln["t"] = t
+            lines.append(ln)
+        steps += sum(1 for ln in s["lines"] if ln["op"] not in ("init", "sync", "adopt"))
+    bykind, byop = {}, {}
+    for s in sessions:
+        bykind[s["kind"]] = bykind.get(s["kind"], 0) + 1
+        for w in s["what"]:
+            op = w.split(".")[-1].split(":")[0]
+            byop[op] = byop.get(op, 0) + 1
+    before = ctx.notes.get("lines_in_domain", 0)
+    rejects = ctx.judge(AREA, "HeaderViewsTrace", lines, batch=4000) if lines else []
+    indom = sum(r["i"] for r in rejects if r["clause"] == "_indomain")
+    rejects = [r for r in rejects if r["clause"] != "_indomain"]
+    ctx.count(steps)
+    ctx.notes["repo_tests"] = {"files": list(files), "objects_seen": data.get("objects_seen"), "sessions_judged": len(sessions),
+                               "sessions_by_kind": bykind, "steps_judged": steps, "steps_in_domain": indom, "lines": len(lines),
+                               "steps_by_op": dict(sorted(byop.items())), "skipped_or_truncated_by_reason": data["skipped"],
+                               "pytest_exit": p.returncode}
+    if steps < min_steps:
+        raise tlc.MachineryError(f"repository tests under the recording plugin gave only {steps} judged steps (< {min_steps}):\n{tail}")
+    seen = set()
+    for r in sorted(rejects, key=lambda r: (r["t"], r["i"])):
+        if r["t"] in seen:
+            continue
+        seen.add(r["t"])
+        s = sessions[r["t"]]
+        what = s["what"][r["i"]] if r["i"] < len(s["what"]) else "?"
+        case = {"test": s["test"], "kind": s["kind"], "what": s["what"][: r["i"] + 1], "lines": s["lines"][: r["i"] + 1]}
+        ctx.violation(f"RepoTests{r['clause']}:{what}", "RepoTests" + r["clause"], case, kind="repo-tests")
+    if p.returncode != 0 and not seen:
+        # the wrapping must be invisible to the tests: red tests without any rejected session cannot be told from
+        # interference by the plugin -> machinery, never a verdict
+        raise tlc.MachineryError("the repository's tests fail under the recording plugin although no session was rejected:\n" + tail)
+    for s in sessions[:: max(1, len(sessions) // 3)][:3]:
+        ctx.sample({"repo_test": s["test"], "kind": s["kind"], "steps": s["what"][:10]})
+    ctx.nontrivial.update(("repo", t) for t, s in enumerate(sessions) if any(ln["op"] not in ("init", "sync", "adopt", "get_view") for ln in s["lines"]))
+
+
 # ---------------------------------------------------------------------- entry points
 def run(ctx: Ctx):
     q = ctx.quick
@@ -287,6 +365,11 @@ def run(ctx: Ctx):
         "WWW-Authenticate: a scheme without token and parameters re-reads as the empty token; a view holding both a token "
         "and parameters is outside the re-read clause (documented: only one should have a value)",
     ]
+    # the repository's own tests run under the recording plugin while TLC works (judged in 4.)
+    import concurrent.futures as cf
+    files = QUICK_TEST_FILES if q else THOROUGH_TEST_FILES
+    bg = cf.ThreadPoolExecutor(max_workers=1)
+    recording = bg.submit(record_repo_tests, ctx, files)
     # 1. model checking (+ non-vacuity: the model of the code before the fixes violates the contract)
     # (the quick-size configs MCX_* check the same properties while exporting the transition system, see 2.)
     if not q:
@@ -318,10 +401,19 @@ def run(ctx: Ctx):
     lines = judge_traces(ctx, traces)
     for t in (0, len(traces) // 2, len(traces) - 1):
         ctx.sample({"steps": traces[t]})
+    # 4. code -> spec from the repository's own tests
+    repo_test_traces(ctx, files, recorded=recording.result())
+    bg.shutdown()
 
 
 def replay(ctx: Ctx, data):
     case = data["case"]
+    if data.get("kind") == "repo-tests":
+        # run that test again under the recording plugin and judge all its sessions
+        ctx.sample({"test": case["test"], "steps": case.get("what")})
+        ctx.nontrivial.update({"replay-a", "replay-b"})
+        repo_test_traces(ctx, (case["test"].split(" ")[0],), min_steps=1)
+        return
     ctx.sample(case)
     ctx.nontrivial.update({"replay-a", "replay-b"})
     judge_traces(ctx, [case["steps"]], [case["exps"]] if case.get("exps") else None, kind=data.get("kind", "walk"))
